@@ -280,3 +280,324 @@ def generate(repo):
     out.append(";\n".join('  ("%s", "%s", %s)' % (rel, n, c) for rel, n, c in ssites))
     out.append("].")
     return "\n".join(out) + "\n"
+
+
+# ---------------------------------------------------------------------------------------------------
+# (4) phase 5: the ROOT variable of every span source inside `impl PatternLinter for X { fn match_to_lint }`
+#     (the span of each Lint construction and the receiver of each get_content / get_content_string):
+#     is it built from the first parameter (the matched tokens) and from nothing else?
+#     Each expression is parsed into the small language of Model/C03Roots.v:
+#        ATok idx                         P[idx].span | P.first()?.span | P.last()?.span | P.get(n)?.span | v.span (v := one of these)
+#        AHull lo hi                      P.span()? | P[a..b].span()? | P[a..].span()? | P[a..=b].span().unwrap()
+#        idx := IConst n | IFirst | ILast | ILenMinus k | IDyn j   (j-th run-time value: any other index expression)
+#     Anything else (another root, a shadowed parameter, an unknown shape) is AUnknown.
+# ---------------------------------------------------------------------------------------------------
+IMPL_PL = re.compile(r"\bimpl(?:\s*<[^{]*?>)?\s+PatternLinter\s+for\s+(\w+)[^{]*\{")
+M2L = re.compile(r"\bfn\s+match_to_lint\s*\(\s*&self\s*,\s*(\w+)\s*:\s*&\[Token\]\s*,\s*(\w+)\s*:\s*&\[char\]\s*,?\s*\)\s*->\s*Option<Lint>\s*\{")
+
+
+def _defs_before(body, name, pos):
+    """(rhs, position) of the nearest `let [mut] name = E;` / `let Some(name) = E else` that ends before pos"""
+    best = None
+    for m in re.finditer(r"\blet\s+(?:mut\s+)?" + re.escape(name) + r"\s*(?::[^=;]+)?=(?!=)", body):
+        j, depth = m.end(), 0
+        while j < len(body):
+            c = body[j]
+            if c in "([{":
+                depth += 1
+            elif c in ")]}":
+                depth -= 1
+            elif c == ";" and depth == 0:
+                break
+            j += 1
+        if j < pos and (best is None or m.start() > best[1]):
+            best = (re.sub(r"\s+", "", body[m.end():j]), m.start())
+    for m in re.finditer(r"\blet\s+Some\(\s*" + re.escape(name) + r"\s*\)\s*=(?!=)(.*?)\belse\b", body, re.S):
+        if m.end() < pos and (best is None or m.start() > best[1]):
+            best = (re.sub(r"\s+", "", m.group(1)), m.start())
+    return best
+
+
+def _bound_anywhere(body, name):
+    """every way `name` could be re-bound inside the body other than a plain let (closure / for / match / if-let patterns)"""
+    pats = [r"\|[^|]*\b%s\b[^|]*\|", r"\bfor\s+[^{;]*\b%s\b[^{;]*\bin\b", r"\bSome\(\s*%s\s*\)\s*=>", r"\bif\s+let\s+[^=]*\b%s\b[^=]*="]
+    return any(re.search(p % re.escape(name), body) for p in pats)
+
+
+class _Dyn:
+    def __init__(self):
+        self.n = 0
+        self.exprs = []
+
+    def fresh(self, e):
+        self.exprs.append(e)
+        self.n += 1
+        return "IDyn %d" % (self.n - 1)
+
+
+def _idx(e, P, dyn):
+    if re.fullmatch(r"\d+", e):
+        return "IConst %s" % e
+    m = re.fullmatch(re.escape(P) + r"\.len\(\)-(\d+)", e)
+    if m:
+        return "ILenMinus %s" % m.group(1)
+    if re.fullmatch(r"[\w+\-*]+", e):
+        return dyn.fresh(e)
+    return None
+
+
+def _tok_ast(e, P, dyn):
+    """e denotes ONE token of P -> idx, else None"""
+    e = e.lstrip("&")
+    m = re.fullmatch(re.escape(P) + r"\[([^\[\]]+)\]", e)
+    if m and ".." not in m.group(1):
+        return _idx(m.group(1), P, dyn)
+    if re.fullmatch(re.escape(P) + r"\.first\(\)(?:\?|\.unwrap\(\))", e):
+        return "IFirst"
+    if re.fullmatch(re.escape(P) + r"\.last\(\)(?:\?|\.unwrap\(\))", e):
+        return "ILast"
+    m = re.fullmatch(re.escape(P) + r"\.get\((\d+)\)\?", e)
+    if m:
+        return "IConst %s" % m.group(1)
+    return None
+
+
+def parse_span_src(body, expr, pos, P, dyn, depth=0):
+    """-> (coq AST text, root class) ; root: RMatched | ROther"""
+    expr = expr.lstrip("&")
+    if depth > 4:
+        return ("AUnknown", "ROther")
+    # a local variable holding a span
+    if re.fullmatch(r"\w+", expr):
+        if expr == P:
+            return ("AUnknown", "ROther")
+        d = _defs_before(body, expr, pos)
+        if d is None or _bound_anywhere(body, expr):
+            return ("AUnknown", "ROther")
+        return parse_span_src(body, d[0], d[1], P, dyn, depth + 1)
+    # P must still be the parameter at this point
+    if _defs_before(body, P, pos) is not None or _bound_anywhere(body, P):
+        return ("AUnknown", "ROther")
+    # hull forms
+    m = re.fullmatch(re.escape(P) + r"(?:\[([^\[\]]*)\])?\.span\(\)(?:\?|\.unwrap\(\))", expr)
+    if m:
+        rng = m.group(1)
+        if rng is None:
+            return ("AHull None HNone", "RMatched")
+        r = re.fullmatch(r"([^.]*)\.\.(=?)([^.]*)", rng)
+        if not r:
+            return ("AUnknown", "ROther")
+        lo = _idx(r.group(1), P, dyn) if r.group(1) else "-"
+        hi = _idx(r.group(3), P, dyn) if r.group(3) else "-"
+        if lo is None or hi is None or (r.group(2) and hi == "-"):
+            return ("AUnknown", "ROther")
+        lo_s = "None" if lo == "-" else "(Some (%s))" % lo
+        hi_s = "HNone" if hi == "-" else ("(HIncl (%s))" % hi if r.group(2) else "(HExcl (%s))" % hi)
+        return ("AHull %s %s" % (lo_s, hi_s), "RMatched")
+    # token forms: T.span
+    if expr.endswith(".span"):
+        t = expr[:-5]
+        i = _tok_ast(t, P, dyn)
+        if i is not None:
+            return ("ATok (%s)" % i, "RMatched")
+        if re.fullmatch(r"\w+", t) and t != P and _defs_before(body, t, pos) is None:
+            # `for (t, ..) in P.iter()..` / `for t in P.iter()..` / `for t in P` : some token of P
+            fm = [m for m in re.finditer(r"\bfor\s*\(?\s*" + re.escape(t) + r"\s*(?:,[^)]*\))?\s*in\s+" + re.escape(P) + r"(?:\.iter\(\))?\b(?!\[)", body) if m.start() < pos]
+            if len(fm) == 1 and len(re.findall(r"\b" + re.escape(t) + r"\b\s*(?:,[^)]*\))?\s*in\b", body)) == 1 and _defs_before(body, P, fm[0].start()) is None:
+                return ("ATok (%s)" % dyn.fresh("for " + t), "RMatched")
+        if re.fullmatch(r"\w+", t) and t != P:
+            d = _defs_before(body, t, pos)
+            if d is not None and not _bound_anywhere(body, t) and _defs_before(body, P, d[1]) is None:
+                i = _tok_ast(d[0], P, dyn)
+                if i is not None:
+                    return ("ATok (%s)" % i, "RMatched")
+    return ("AUnknown", "ROther")
+
+
+def pattern_rule_bodies(repo):
+    """-> rows (file, struct, [(what, expr, ast, root)]) for every `impl PatternLinter for`, extra Lint constructions of such
+    files outside match_to_lint, and the registrations (names of insert_pattern_rule!, types of add_pattern_linter sites)"""
+    d = os.path.join(repo, "harper-core", "src", "linting")
+    rows, outside = [], []
+    for root, _, fs in os.walk(d):
+        for f in sorted(fs):
+            if not f.endswith(".rs") or f in FRAMEWORK:
+                continue
+            code = strip_comments(strip_tests(open(os.path.join(root, f), encoding="utf-8").read()))
+            rel = os.path.relpath(os.path.join(root, f), d)
+            impls = list(IMPL_PL.finditer(code))
+            if not impls and re.search(r"\bPatternLinter\s+for\b", code):
+                raise RuntimeError("%s: an `impl .. PatternLinter for` of unknown shape" % rel)
+            n_inside = 0
+            for im in impls:
+                iend = match_brace(code, im.end() - 1)
+                block = code[im.end():iend]
+                ms = list(M2L.finditer(block))
+                if len(ms) != 1:
+                    raise RuntimeError("%s: impl PatternLinter for %s: match_to_lint of unknown signature" % (rel, im.group(1)))
+                m = ms[0]
+                P = m.group(1)
+                bend = match_brace(block, m.end() - 1)
+                body = block[m.end():bend]
+                sites = []
+                for lm in re.finditer(r"\bLint\s*\{", body):
+                    j = match_brace(body, lm.end() - 1)
+                    sp = None
+                    for fld in top_fields(body[lm.end():j]):
+                        if fld == "span":
+                            sp = "span"
+                        elif fld.startswith("span:"):
+                            sp = fld[5:]
+                    if sp is None:
+                        raise RuntimeError("%s: Lint { .. } without a span field in match_to_lint" % rel)
+                    dyn = _Dyn()
+                    ast, rootc = parse_span_src(body, sp, lm.start(), P, dyn)
+                    sites.append(("lint", sp, ast, rootc, dyn.n))
+                    n_inside += 1
+                if not sites:
+                    raise RuntimeError("%s: match_to_lint of %s constructs no Lint itself (a helper does?)" % (rel, im.group(1)))
+                # receivers of get_content: positions are needed, so scan the un-normalised body statement-wise
+                for rm in re.finditer(r"\.get_content(?:_string)?\(", body):
+                    # walk back over the receiver chain (identifiers, [], (), ?, ., &, whitespace inside brackets)
+                    k, depth = rm.start(), 0
+                    while k > 0:
+                        c = body[k - 1]
+                        if c in ")]":
+                            depth += 1
+                        elif c in "([":
+                            if depth == 0:
+                                break
+                            depth -= 1
+                        elif depth == 0 and not (c.isalnum() or c in "_.?&" or c.isspace()):
+                            break
+                        k -= 1
+                    recv = re.sub(r"\s+", "", body[k:rm.start()])
+                    recv = re.sub(r"^(?:return|let|in|if|else|match)(?=\W)", "", recv)
+                    dyn = _Dyn()
+                    ast, rootc = parse_span_src(body, recv, rm.start(), P, dyn)
+                    sites.append(("read", recv, ast, rootc, dyn.n))
+                rows.append((rel, im.group(1), P, sites))
+            if impls:
+                total = len(re.findall(r"\bLint\s*\{", code)) - len(re.findall(r"\b(?:impl|struct|for)\s+Lint\s*\{", code))
+                if total != n_inside:
+                    outside.append((rel, total - n_inside))
+    lg = strip_comments(open(os.path.join(d, "lint_group.rs"), encoding="utf-8").read())
+    lg = strip_tests(lg)
+    curated = re.findall(r"\binsert_pattern_rule!\(\s*(\w+)\s*,", lg)
+    if len(curated) < 10:
+        raise RuntimeError("lint_group.rs: insert_pattern_rule!(Name, ..) list not recognised")
+    if len(re.findall(r"\badd_pattern_linter\(", lg)) != 2:
+        raise RuntimeError("lint_group.rs: add_pattern_linter is used elsewhere than its definition and insert_pattern_rule!")
+    if not re.search(r"out\.add_pattern_linter\(stringify!\(\$rule\),\s*Box::new\(\$rule::default\(\)\)\);", lg):
+        raise RuntimeError("lint_group.rs: insert_pattern_rule! no longer registers $rule::default()")
+    regs = []
+    for root, _, fs in os.walk(d):
+        for f in sorted(fs):
+            if not f.endswith(".rs") or f == "lint_group.rs":
+                continue
+            code = strip_comments(strip_tests(open(os.path.join(root, f), encoding="utf-8").read()))
+            for m in re.finditer(r"\.add_pattern_linter\(", code):
+                j = code.find(";", m.end())
+                t = re.search(r"Box::new\(\s*(\w+)::", code[m.end():j])
+                if not t:
+                    raise RuntimeError("%s: add_pattern_linter(..) with an argument of unknown shape" % f)
+                regs.append((os.path.relpath(os.path.join(root, f), d), t.group(1)))
+    return rows, outside, curated, regs
+
+
+# ---------------------------------------------------------------------------------------------------
+# (5) phase 5: where do the characters of a Suggestion built in a pattern rule body come from?  For every
+#     `Suggestion::x(args)` of every match_to_lint: the get_content receivers reachable from the arguments through local
+#     `let`s (depth <= 4), each parsed as in (4) and compared with the parse of the body's Lint spans:
+#        PNoRead     no span content is read (literals, the rule's own tables, helper results)
+#        PLintSpan   only the content of the lint's own span
+#        PMatched    (also) content of other expressions over the matched tokens — inside the chunk, maybe outside the lint span
+#        POther      content of a span that is not an expression over the matched tokens
+# ---------------------------------------------------------------------------------------------------
+def _balanced_args(body, i):
+    """body[i] == '(' -> text between the matching parentheses"""
+    depth = 0
+    for j in range(i, len(body)):
+        if body[j] in "([{":
+            depth += 1
+        elif body[j] in ")]}":
+            depth -= 1
+            if depth == 0:
+                return body[i + 1:j]
+    raise RuntimeError("unbalanced parentheses")
+
+
+def _reads_in(body, text, pos, P, seen, depth=0):
+    """parses of the get_content receivers in `text` (located at `pos` in body) and in the definitions of its locals"""
+    out = []
+    for rm in re.finditer(r"\.get_content(?:_string)?\(", text):
+        k, d = rm.start(), 0
+        while k > 0:
+            c = text[k - 1]
+            if c in ")]":
+                d += 1
+            elif c in "([":
+                if d == 0:
+                    break
+                d -= 1
+            elif d == 0 and not (c.isalnum() or c in "_.?&" or c.isspace()):
+                break
+            k -= 1
+        recv = re.sub(r"\s+", "", text[k:rm.start()])
+        out.append(parse_span_src(body, recv, pos, P, _Dyn()))
+    if depth < 4:
+        for ident in set(re.findall(r"\b[a-z_]\w*\b", re.sub(r"\.\s*\w+", "", text))):
+            if ident in seen:
+                continue
+            dfn = _defs_before(body, ident, pos)
+            # a Vec filled after its definition: `ident.push(e)` / `ident.extend(e)` before this point
+            for um in re.finditer(r"\b" + re.escape(ident) + r"\.(?:push|extend|extend_from_slice|insert)\(", body[:pos]):
+                out.extend(_reads_in(body, _balanced_args(body, um.end() - 1), um.start(), P, seen, depth + 1))
+            if dfn is None:
+                continue
+            seen.add(ident)
+            # the raw text of the definition (positions are needed for nested lookups): find it again un-normalised
+            m = re.search(r"\blet\s+(?:mut\s+)?" + re.escape(ident) + r"\b", body[dfn[1]:])
+            j = body.find(";", dfn[1])
+            raw = body[dfn[1]:j if j > 0 else len(body)]
+            # a span-valued local counts through its uses (x.get_content), not through its definition
+            if re.search(r"\.get_content", raw) or not re.search(r"\.span\b", raw):
+                out.extend(_reads_in(body, raw.split("=", 1)[1] if "=" in raw else raw, dfn[1], P, seen, depth + 1))
+    return out
+
+
+def pattern_suggestion_payloads(repo):
+    d = os.path.join(repo, "harper-core", "src", "linting")
+    rows = []
+    for root, _, fs in os.walk(d):
+        for f in sorted(fs):
+            if not f.endswith(".rs") or f in FRAMEWORK:
+                continue
+            code = strip_comments(strip_tests(open(os.path.join(root, f), encoding="utf-8").read()))
+            for im in IMPL_PL.finditer(code):
+                block = code[im.end():match_brace(code, im.end() - 1)]
+                m = M2L.search(block)
+                if not m:
+                    raise RuntimeError("match_to_lint not found")
+                P = m.group(1)
+                body = block[m.end():match_brace(block, m.end() - 1)]
+                lint_asts = set()
+                for lm in re.finditer(r"\bLint\s*\{", body):
+                    for fld in top_fields(body[lm.end():match_brace(body, lm.end() - 1)]):
+                        sp = "span" if fld == "span" else (fld[5:] if fld.startswith("span:") else None)
+                        if sp:
+                            lint_asts.add(parse_span_src(body, sp, lm.start(), P, _Dyn())[0])
+                for sm in re.finditer(r"\bSuggestion::(\w+)", body):
+                    k = sm.end()
+                    args = _balanced_args(body, k) if k < len(body) and body[k] == "(" else ""
+                    reads = _reads_in(body, args, sm.start(), P, set())
+                    if not reads:
+                        cls = "PNoRead"
+                    elif any(r[1] != "RMatched" for r in reads):
+                        cls = "POther"
+                    elif all(r[0] in lint_asts for r in reads):
+                        cls = "PLintSpan"
+                    else:
+                        cls = "PMatched"
+                    rows.append((im.group(1), sm.group(1), cls))
+    return rows
